@@ -90,7 +90,7 @@ class CXX2C(Emitter, ExprMixin, LibMixin, StmtMixin):
         names = {k[1] for k in items}
         deps = {}
         for k, text in items.items():
-            body = text.split('{', 1)[1] if k[0] == 'S' else text.split('(', 1)[1]
+            body = text.split('{', 1)[1] if (k[0] == 'S' or text.startswith('typedef')) else text.split('(', 1)[1]
             toks = set(re.findall(r'[A-Za-z_]\w*', body))
             deps[k] = {kk for kk in items if kk[1] in toks and kk != k}
         order = []; seen = set()
